@@ -23,7 +23,7 @@ def keys(kind, ty):
 
 
 def gen(rng, tier, idx):
-    desc = mgen.gen_world_desc(rng.derive("world"), nlooms=(1, 3), ncpus=(1, 3), nprocs=(1, 2), nthreads=(1, 4))
+    desc = mgen.gen_world_desc(rng.derive("world"), nlooms=(1, 3), ncpus=(1, 3), nprocs=(1, 2), nthreads=(1, 4), skews=rng.derive("skew").chance(35))
     g = mgen.Gen(rng.derive("workload"), desc, knobs={"w_state": 35, "w_aff": 35, "w_region": 0, "w_flush": 1,
                                                        "w_filler": 4, "w_idle": 0, "p_vcpu": 25})
     r = rng.derive("faults")
